@@ -94,6 +94,19 @@ def scenarios(tier, seed):
         for flag in (False, True):
             probes = [[h, dict(kw, drop_na=flag), kind] for h, kw in VARIANTS if h not in ("all", "any") and "drop_na" not in kw and ok_combo(h, kind)]
             sc.append(one(f"drop_na={flag}:{kind}", [], probes))
+    # 7. ddof variants (Python-only in the reference implementation) and several helpers in one aggregate() call
+    for kind in ["floatna", "float", "int", "date"]:
+        multi = [["median", {"drop_na": False}], ["first", {}], ["last", {}], ["nth", {"index": 1}], ["mode", {}], ["max", {}], ["count_unique", {}]]
+        if kind == "date":
+            multi = [m for m in multi if m[0] != "median"] + [["min", {"drop_na": False}]]
+        probes = [["multi", {"helpers": multi}, kind], ["multi", {"helpers": multi[::-1]}, kind]]
+        if kind != "date":
+            probes += [["std", {"ddof": 1}, kind], ["var", {"ddof": 1}, kind], ["std", {"ddof": 2}, kind]]
+        sc.append(one(f"multi+ddof:{kind}", [], probes))
+    # 8. the other members of the accelerated dtype families: narrower integers / floats, other datetime units
+    for kind in ["int32", "uint8", "int16", "uint64", "float32", "datetime_s", "datetime_ms", "datetime_ns"]:
+        probes = [[h, kw, kind] for h, kw in VARIANTS if ok_combo(h, "datetime" if kind.startswith("datetime_") else "int")]
+        sc.append(one(f"narrow:{kind}", [], probes))
     if tier == "thorough":
         for kind in KINDS:
             for (a, akw), (b, bkw) in itertools.permutations(VARIANTS, 2):
@@ -261,7 +274,7 @@ def custom_main(a, seed):
             inconclusive.append("Numba not available in children: comparison would be Python vs Python")
         if total["timeouts"]:
             inconclusive.append(f"{total['timeouts']} children hit the watchdog")
-        if total["records"] == 0 or total["numba_selected"] < 0.8 * total["records"]:
+        if total["records"] == 0 or total["numba_selected"] < 0.5 * total["records"]:
             inconclusive.append(f"Numba kernel selected for {total['numba_selected']} of {total['records']} judged records")
         if total["dispatcher_cache_hits"] == 0:
             inconclusive.append("no kernel was ever loaded from an earlier process's cache")
